@@ -227,9 +227,20 @@ structure Cfg where
   target : ConnKind    -- `cconn`: what `p.dial` returned (to the target, or to the downstream proxy)
   deriving Repr, DecidableEq
 
+/-- The kind of error `p.dial` (or reading the downstream proxy's answer) returned. The code does not
+look at it: `cerr != nil` is all the failed branch tests, and the status is the constant 502. -/
+inductive DialErr where
+  | refused       -- ECONNREFUSED
+  | timeout       -- a net.Error with Timeout() = true (i/o timeout, black-holed address)
+  | eof           -- io.EOF / unexpected EOF (the downstream proxy hung up before answering)
+  | dns           -- *net.DNSError: no such host
+  | ctxDeadline   -- context.DeadlineExceeded (also a Timeout() error)
+  | other         -- any other error value
+  deriving Repr, DecidableEq
+
 /-- Result of `p.connect(req)`. -/
 inductive Connect where
-  | refused                 -- dial error (or an unreadable answer of the downstream proxy)
+  | failed (k : DialErr)    -- `cerr != nil`, whatever the error is
   | ok (ahead : Bytes)      -- connection; `ahead`: tunnel bytes read together with the downstream proxy's
                             -- 2xx head (they become res.Body); always empty for a direct dial
   deriving Repr, DecidableEq
@@ -240,6 +251,7 @@ structure Out where
   toClient : List Act    -- after the response head
   toTarget : List Act
   released : Bool        -- the handler returned errClose: deferred cconn.Close(), handleLoop's conn.Close()
+  kept : Bool := false   -- the handler returned brw.Flush()'s nil: the serving loop reads the next request
   deriving Repr, DecidableEq
 
 /-- `io.Copy(brw, res.Body)` inside `res.Write`: one write of the body if there is one. -/
@@ -263,9 +275,9 @@ def downPump (cfg : Cfg) (down : List Ev) : Pump × List Act :=
 /-- `linger`: how the outbound connection is closed at the end (`graceful` is the code as it is). -/
 def handleConnectWith (linger : CloseKind) (cfg : Cfg) (c : Connect) (early : Bytes) (up down : List Ev) : Out :=
   match c with
-  | .refused =>
-    -- res = 502; proxyutil.Warning(res.Header, cerr); resmod; res.Write(brw); brw.Flush(); return err
-    { status := 502, warning := true, toClient := [], toTarget := [], released := false }
+  | .failed _ =>
+    -- res = 502 (a constant: the error kind is only copied into the Warning header); proxyutil.Warning(res.Header, cerr); resmod; res.Write(brw); brw.Flush(); return err
+    { status := 502, warning := true, toClient := [], toTarget := [], released := false, kept := true }
   | .ok ahead =>
     -- res.Write(brw) writes the head and then res.Body (= ahead); brw.Flush()
     let pre := optWrite ahead
